@@ -105,7 +105,12 @@ def r15_1(prog, out):
         p = params[0]
         pushes = [bb for bb, t in bi.calls(lambda c: c.path == "std::vec::Vec::<T, A>::push") if prog.anchors.ty("PulledMessage") in (b.operand_ty(t.args[1]) or "")]
         if not pushes:
-            raise CheckBroken("no push of a PulledMessage in %s" % name)
+            # two-phase form: the loop first collects the popped messages themselves, the deliveries are built from that batch
+            pop_bbs = {e.bb for e in effs}
+            pushes = [bb for bb, t in bi.calls(lambda c: c.path == "std::vec::Vec::<T, A>::push")
+                      if any(set(bi.cfg.in_loop(bb)) & set(bi.cfg.in_loop(pb)) for pb in pop_bbs)]
+        if not pushes:
+            raise CheckBroken("no push of a delivery / popped message in the pop loop of %s" % name)
         # comparisons len(result) >= cap
         cmps = []
         for blk in b.blocks:
